@@ -168,8 +168,8 @@ func reMatched(ri *RegexInfo, s *Term) *Term { return UF("re.matches."+reName(ri
 func reGroup(ri *RegexInfo, s *Term, i int) *Term {
 	return UF(fmt.Sprintf("re.group%d.%s", i, reName(ri)), SStr, s)
 }
-func strIsDigits(s *Term) *Term { return UF("str.isdigits", SBool, s) }
-func strNum(s *Term) *Term      { return UF("str.num", SInt, s) }
+func strIsDigits(s *Term) *Term { return UF("gs.isdigits", SBool, s) }
+func strNum(s *Term) *Term      { return UF("gs.num", SInt, s) }
 
 func pow10(n int) *Term {
 	s := "1" + strings.Repeat("0", n)
@@ -300,11 +300,11 @@ func init() {
 	prelude["strings.Contains"] = func(x *Exec, st *State, callee *ssa.Function, args []*Val, pos token.Pos) *Val {
 		x.trusted["A-STR"] = true
 		s, sub := args[0].T, args[1].T
-		r := UF("str.contains", SBool, s, sub)
+		r := UF("gs.contains", SBool, s, sub)
 		x.ctx.assumeGlobal(st, And(Implies(r, Ge(strLen(s), strLen(sub))), Implies(Eq(strLen(sub), IntLit(0)), r)))
 		if l, ok := literalOf(sub); ok && len(l) == 1 {
 			// contains a single byte: exists / forall characterisation
-			k := UF("str.indexbyte", SInt, s, IntLit(int64(l[0])))
+			k := UF("gs.indexbyte", SInt, s, IntLit(int64(l[0])))
 			x.ctx.assumeGlobal(st, Implies(r, And(Le(IntLit(0), k), Lt(k, strLen(s)), Eq(strAt(s, k), IntLit(int64(l[0]))))))
 			j := BoundVar("j", SInt)
 			x.ctx.assumeGlobal(st, Implies(Not(r), Forall([]*Term{j}, Implies(And(Le(IntLit(0), j), Lt(j, strLen(s))), Neq(strAt(s, j), IntLit(int64(l[0])))), []*Term{strAt(s, j)})))
@@ -314,8 +314,8 @@ func init() {
 	prelude["strings.Count"] = func(x *Exec, st *State, callee *ssa.Function, args []*Val, pos token.Pos) *Val {
 		x.trusted["A-STR"] = true
 		s, sub := args[0].T, args[1].T
-		r := UF("str.count", SInt, s, sub)
-		x.ctx.assumeGlobal(st, And(Ge(r, IntLit(0)), Eq(Gt(r, IntLit(0)), UF("str.contains", SBool, s, sub))))
+		r := UF("gs.count", SInt, s, sub)
+		x.ctx.assumeGlobal(st, And(Ge(r, IntLit(0)), Eq(Gt(r, IntLit(0)), UF("gs.contains", SBool, s, sub))))
 		return &Val{T: r, Typ: intT}
 	}
 	prelude["strings.ToLower"] = func(x *Exec, st *State, callee *ssa.Function, args []*Val, pos token.Pos) *Val {
@@ -323,7 +323,7 @@ func init() {
 		if l, ok := literalOf(args[0].T); ok {
 			return &Val{T: StrLit(strings.ToLower(l)), Typ: strT}
 		}
-		r := UF("str.tolower", SStr, args[0].T)
+		r := UF("gs.tolower", SStr, args[0].T)
 		x.ctx.assumeGlobal(st, And(Ge(strLen(r), IntLit(0)), Ge(strOff(r), IntLit(0)), Eq(Eq(strLen(r), IntLit(0)), Eq(strLen(args[0].T), IntLit(0)))))
 		return &Val{T: r, Typ: strT}
 	}
@@ -485,6 +485,21 @@ func init() {
 			ev.errorf("group index must be a literal")
 		}
 		return &Val{T: reGroup(ri, args[1].T, int(i)), Typ: types.Typ[types.String]}
+	}
+	specBuiltins["runelen"] = func(ev *evaluator, args []*Val) *Val {
+		s := args[0].T
+		if l, ok := literalOf(s); ok {
+			return &Val{T: IntLit(int64(len([]rune(l)))), Typ: intT}
+		}
+		cnt := UF("gs.runecount", SInt, s)
+		ev.x.ctx.assumeGlobal(ev.st, And(Ge(cnt, IntLit(0)), Le(cnt, strLen(s)), Implies(Gt(strLen(s), IntLit(0)), Gt(cnt, IntLit(0))), Le(strLen(s), Mul(IntLit(4), cnt))))
+		return &Val{T: cnt, Typ: intT}
+	}
+	specBuiltins["ascii"] = func(ev *evaluator, args []*Val) *Val {
+		if l, ok := literalOf(args[0].T); ok {
+			return &Val{T: BoolLit(isASCII(l)), Typ: boolT}
+		}
+		return &Val{T: UF("gs.ascii", SBool, args[0].T), Typ: boolT}
 	}
 	specBuiltins["isdigits"] = func(ev *evaluator, args []*Val) *Val {
 		return &Val{T: strIsDigits(args[0].T), Typ: boolT}
